@@ -2,4 +2,6 @@ SPECIFICATION GSpec
 CONSTANTS KA = {"none", "f3", "sub"}
           KB = {"none", "f0", "f12", "f3"}
           KC = {"raw1", "frep", "f12"}
+          RK = {"dir", "hamt"}
+          SK = {"dir", "hamt"}
 INVARIANTS Emit
